@@ -2,6 +2,8 @@ package c15
 
 import (
 	"fmt"
+	"io/ioutil"
+	"os"
 	"path/filepath"
 	"strings"
 
@@ -19,6 +21,97 @@ import (
 //
 // direct predicate: the two directions agree (name → path → name up to letter case; path → name → lower-cased path),
 // except for the reserved top-level files `init` / `init_typeset` of a module.
+
+// op on the constructor:
+//
+//	ctor <xMOD> (xPATHTYPE …)   px.NewFileBasedLoader(sys, <tmp>, MOD, PATHTYPE…) over a directory that holds
+//	                            types/probe.pp and types/Q/probe.pp (Q = MOD, or `nomod` for the empty name):
+//	                            `reported <CODE>` when the constructor panics, else `ok <t|f> <t|f> <t|f>` = HasEntry of
+//	                            Probe, Q::Probe, Q::Q::Probe — which shows the moduleNameRelative flag the CONSTRUCTOR gave
+//	                            its smart paths (the ops tn / ep build their own smart path and never see it)
+//
+// direct predicate (`ctor-path-kind`): a loader without the data-type path indexes nothing; a global loader (module name
+// `` or `environment`) keys the two files Probe and Q::Probe, any other loader Q::Probe and Q::Q::Probe.
+
+func execCtor(args []sx.Sexp) (res core.Result) {
+	defer func() {
+		if e := recover(); e != nil {
+			res = core.Result{Out: "bad-op", Pred: "FAIL harness-bad-op " + fmt.Sprint(e)}
+		}
+	}()
+	if len(args) != 2 {
+		panic("two arguments expected")
+	}
+	mod := args[0].MustStr()
+	if mod != "" && !modRx.MatchString(mod) {
+		return core.Result{Out: "bad-tree", Pred: "n/a"}
+	}
+	pts := strs(args[1])
+	q := mod
+	if q == "" {
+		q = "nomod"
+	}
+	root, err := ioutil.TempDir("", "c15ctor-")
+	if err != nil {
+		panic(err)
+	}
+	defer os.RemoveAll(root)
+	for _, rel := range [][]string{{"types", "probe.pp"}, {"types", q, "probe.pp"}} {
+		p := filepath.Join(append([]string{root}, rel...)...)
+		if err := os.MkdirAll(filepath.Dir(p), 0755); err != nil {
+			panic(err)
+		}
+		if err := ioutil.WriteFile(p, []byte("type X = Integer\n"), 0644); err != nil {
+			panic(err)
+		}
+	}
+	lds := make([]px.PathType, len(pts))
+	hasData := false
+	for i, pt := range pts {
+		lds[i] = px.PathType(pt)
+		hasData = hasData || lds[i] == px.PuppetDataTypePath
+	}
+	var ml px.ModuleLoader
+	out := func() (o string) {
+		defer func() {
+			if e := recover(); e != nil {
+				o = classify(root, e).String()
+			}
+		}()
+		ml = px.NewFileBasedLoader(px.NewParentedLoader(px.StaticLoader()), root, mod, lds...)
+		return "ok"
+	}()
+	if ml == nil {
+		// the constructor refused: legitimate exactly when some path type has no factory
+		known := true
+		for _, pt := range lds {
+			known = known && pt == px.PuppetDataTypePath
+		}
+		if known {
+			return core.Fail(out, "ctor-path-kind", "constructor refused registered path types")
+		}
+		return core.Result{Out: out, Pred: "ok", NonTrivial: true, Tags: []string{"ctor-refused"}}
+	}
+	capQ := capSeg(q)
+	names := []string{"Probe", capQ + "::Probe", capQ + "::" + capQ + "::Probe"}
+	global := mod == "" || mod == "environment"
+	want := []bool{global, true, !global}
+	if !hasData {
+		want = []bool{false, false, false}
+	}
+	for i, n := range names {
+		got := ml.HasEntry(px.NewTypedName(px.NsType, n))
+		out += " " + sx.B(got)
+		if got != want[i] && res.Pred == "" {
+			res = core.Fail("", "ctor-path-kind", fmt.Sprintf("loader %q built with %v: HasEntry(%s) = %v", mod, pts, n, got))
+		}
+	}
+	if res.Pred != "" {
+		res.Out = out
+		return res
+	}
+	return core.Result{Out: out, Pred: "ok", NonTrivial: true, Tags: []string{"ctor"}}
+}
 
 const fakeRoot = "/c15root"
 
